@@ -243,6 +243,9 @@ where
         // done in two stages since otherwise (1-α) = -α for
         // large α, which makes z exactly 0. (or worse, -0.0 )
         cones.scaled_unit_shift(z, -min_margin, pd);
+        // the first stage is only as exact as the rounding of -min_margin,
+        // so keep the final margin above that when the shift is enormous
+        let target = T::max(target, -min_margin * T::epsilon() * (8.).as_T());
         cones.scaled_unit_shift(z, target, pd);
     } else if min_margin < target {
         // margin is positive but small.
